@@ -28,7 +28,7 @@ from rv.probes import ReachProbe
 PROP = 'C12'
 LEVEL = 'fault_enumeration'
 RULE = ('scenarios = AtomicWriter in bytes/text mode with 0..5 body writes (sizes straddling the io buffer), explicit '
-        'flushes, body raising at each write, pre-existing stale tmp_1, missing parent directory, writer object used for two consecutive cycles, '
+        'flushes, body raising at each write, writers abandoned without exit (dropped and garbage collected, reference cycle, ExitStack.pop_all, interpreter shutdown), pre-existing stale tmp_1, missing parent directory, writer object used for two consecutive cycles, '
         'destination present or absent; for each scenario EVERY operation boundary (before/after each open, write, '
         'flush, close, replace, unlink, mkdir) x {crash, EIO, ENOSPC, EACCES}; BSP.save on tests/test_vec/rot_main.bsp: '
         'every boundary for crashes (a seeded third in quick), seeded sample for faults; two writers in one directory '
@@ -257,6 +257,83 @@ def enumerate_writer(run, thorough: bool) -> None:
             run.sample({'scenario': scn, 'boundaries': [f'{k}:{kind} {name}' for k, kind, name in log]}, 'atomicwriter')
     run.extra['scenarios'] = len(scenarios(thorough))
     run.extra['exhaustive_over_recorded_boundaries'] = True
+
+
+# ------------------------------------------------------------------ abandoned writers
+ABANDON_DRIVER = r'''
+import sys, os
+sys.path[:0] = [{src!r}, {shim!r}]
+from srctools import AtomicWriter
+w = AtomicWriter(sys.argv[1], is_bytes=True)
+f = w.__enter__()
+f.write(b'PARTIAL-NEW-DATA' * int(sys.argv[2]))
+{ending}
+'''
+
+
+def abandoned(run, thorough: bool) -> None:
+    """A writer that is entered, partly written and never exited: dropped + garbage collected in-process, and left open
+    at interpreter shutdown (sys.exit, falling off the end of the script, an uncaught exception).  The destination must
+    keep its previous contents (a leftover temp file is not a *handled* failure and is not judged)."""
+    import gc
+    from srctools import AtomicWriter
+    for is_bytes in (True, False):
+        for n_writes in (0, 1, 3):
+            for how in ('del+gc', 'cycle+gc', 'exitstack-pop_all'):
+                d = tempfile.mkdtemp(prefix='rv-c12-')
+                try:
+                    dest = os.path.join(d, 'dest.bin')
+                    with open(dest, 'wb') as f0:
+                        f0.write(OLD)
+                    w = AtomicWriter(dest, is_bytes=True) if is_bytes else AtomicWriter(dest, is_bytes=False, encoding='latin1')
+                    if how == 'exitstack-pop_all':
+                        import contextlib
+                        with contextlib.ExitStack() as stack:
+                            fh = stack.enter_context(w)
+                            for k in range(n_writes):
+                                fh.write(b'PARTIAL' * 3000 if is_bytes else 'PARTIAL' * 3000)
+                            stack.pop_all()  # ownership dropped: nobody will ever call __exit__
+                    else:
+                        fh = w.__enter__()
+                        for k in range(n_writes):
+                            fh.write(b'PARTIAL' * 3000 if is_bytes else 'PARTIAL' * 3000)
+                        if how == 'cycle+gc':
+                            w._self_cycle = w  # only reachable through a reference cycle
+                    del w, fh
+                    gc.collect()
+                    run.count('abandon_runs')
+                    with open(dest, 'rb') as f0:
+                        now = f0.read()
+                    case = {'abandon': [is_bytes, n_writes, how]}
+                    if now != OLD:
+                        run.violation(f'an abandoned writer ({how}, {n_writes} writes) changed the destination ({len(now)} bytes, old {len(OLD)})',
+                                      case=case, engine='abandon', key='abandoned-write-committed')
+                    run.case(['abandon', is_bytes, n_writes, how], n_writes > 0)
+                finally:
+                    shutil.rmtree(d, ignore_errors=True)
+    # interpreter shutdown with a write still open
+    endings = {'sys.exit': 'sys.exit(0)', 'end-of-script': 'pass', 'uncaught-exception': 'raise RuntimeError("boom")',
+               'os._exit': 'os._exit(0)'}
+    for name, ending in endings.items():
+        for n in ((1, 2000) if thorough else (2000,)):
+            d = tempfile.mkdtemp(prefix='rv-c12-')
+            try:
+                dest = os.path.join(d, 'dest.bin')
+                with open(dest, 'wb') as f0:
+                    f0.write(OLD)
+                drv = os.path.join(d, 'drv.py')
+                with open(drv, 'w') as f0:
+                    f0.write(ABANDON_DRIVER.format(src=os.path.join(bootstrap.REPO, 'src'), shim=os.path.join(bootstrap.VERIF, 'shim'), ending=ending))
+                subprocess.run([sys.executable, drv, dest, str(n)], capture_output=True, timeout=120)
+                run.count('abandon_runs')
+                with open(dest, 'rb') as f0:
+                    now = f0.read()
+                if now != OLD:
+                    run.violation(f'a writer left open at interpreter shutdown ({name}) changed the destination ({len(now)} bytes)',
+                                  case={'abandon': ['shutdown', name, n]}, engine='abandon', key='abandoned-write-committed')
+                run.case(['abandon-shutdown', name, n], True)
+            finally:
+                shutil.rmtree(d, ignore_errors=True)
 
 
 # ------------------------------------------------------------------ two writers
@@ -536,13 +613,14 @@ def main(run, shard=(0, 1)) -> None:
     thorough = run.tier == 'thorough'
     enumerate_writer(run, thorough)
     interleavings(run, thorough)
+    abandoned(run, thorough)
     bsp_engine(run, thorough)
     if thorough:
         strace_engine(run)
     run.exhaustive = False
     probe.report(run)
     probe.check_reached(run)
-    run.require('boundaries_enumerated', 'crash_runs', 'fault_runs', 'directory_inspections', 'interleavings_run', 'bsp_crash_runs', 'bsp_save_boundaries')
+    run.require('boundaries_enumerated', 'crash_runs', 'fault_runs', 'directory_inspections', 'interleavings_run', 'bsp_crash_runs', 'bsp_save_boundaries', 'abandon_runs')
 
 
 def replay(run, data) -> None:
@@ -555,6 +633,8 @@ def replay(run, data) -> None:
         two_writers(run, a, b, case['gates'][0], case['gates'][1], case['first'], 'replay', tuple(case.get('names', ('a.bin', 'b.bin'))))
     elif 'strace' in case:
         strace_engine(run)
+    elif 'abandon' in case:
+        abandoned(run, True)
     else:
         bsp_engine(run, False)
     run.case(case, True, sample=case, tag='replay')
